@@ -3,8 +3,11 @@
 AirTouch 4 record: ac_number, following_length (22 = no group bitmap, 24 = little-endian 16-bit group bitmap
 follows), 16-byte NUL-padded name, start_group, group_count, mode bits, fan bits, min/max set-point
 [, bitmap lo, bitmap hi].
-AirTouch 5 record: ac_number, following_length (ignored by the decoder), 16-byte name, start_zone, zone_count,
-mode bits, fan bits, min/max cool, min/max heat  (always 26 bytes).
+AirTouch 5 record: ac_number, following_length (24), 16-byte name, start_zone, zone_count,
+mode bits, fan bits, min/max cool, min/max heat.
+Both decoders advance by 2 + following_length: `_rec_following` also produces records whose following length is
+honoured by the data (longer records with bytes appended after the known ones, following lengths below the
+documented minimum, a last record whose following length runs past the end).
 """
 
 INTERESTING = [0x00, 0x01, 0x02, 0x0F, 0x10, 0x15, 0x16, 0x17, 0x18, 0x19, 0x1A, 0x1F, 0x20, 0x3F, 0x40, 0x55,
@@ -133,9 +136,50 @@ def _rec4(rng, clean=False):
     return fixed
 
 
+def _rec_following(rng, clean, known, documented):
+    """one record `ac, L, L bytes` whose data HONOURS the announced following length L: `known` = number of
+    documented following bytes without optional parts (22 / 24), `documented` = the documented values of L"""
+    r = rng.random()
+    if r < 0.30:
+        following = rng.choice(documented)
+    elif r < 0.75:      # a future console appends fields: longer than any documented record
+        following = max(documented) + rng.choice([1, 1, 2, 2, 3, 4, 8, 20, 22, 24, 26, 46, 50, 100, 229, 231])
+    elif r < 0.85:      # between / just around the documented values
+        following = rng.choice([known - 2, known - 1, known, known + 1, known + 2, known + 3])
+    else:               # shorter than the known fields (body still of the announced length)
+        following = rng.choice([0, 1, 2, 16, 17, 20, 21, known - 1])
+    following = min(255, max(0, following))
+    body = _name16(rng, clean) + bytes(_byte(rng) for _ in range(255))
+    return bytes([_byte(rng), following]) + body[:following]
+
+
+def _gen_following(rng, known, documented, legacy_rec):
+    """several records with honoured following lengths; mostly the exact announced length, sometimes cut so that the
+    last record runs past the end, sometimes mixed with records of the legacy generator"""
+    count = rng.choice([1, 1, 1, 2, 2, 3, 4])
+    clean = rng.random() < 0.8
+    recs = [_rec_following(rng, clean, known, documented) if rng.random() < 0.8 else legacy_rec(rng, clean)
+            for _ in range(count)]
+    data = b"".join(recs)
+    r = rng.random()
+    if r < 0.60:
+        return data, [len(data)]
+    if r < 0.72:        # the last record's following length runs past the announced length (and the buffer)
+        cut = rng.choice([1, 1, 2, 3, rng.randint(1, max(1, len(recs[-1]) - 1))])
+        return data[:max(0, len(data) - cut)], [max(0, len(data) - cut)]
+    if r < 0.80:        # ... past the announced length only (the buffer has the bytes)
+        return data, [max(0, len(data) - rng.choice([1, 2, 3, 24, 26]))]
+    if r < 0.88:        # announced length reached, buffer shorter (skipped bytes are never looked at)
+        return data[:max(0, len(data) - rng.choice([1, 2, 3, 20]))], [len(data)]
+    data, ln = _declared(rng, data, known + 2)
+    return data, [ln]
+
+
 def gen_at4(rng):
     if rng.random() < 0.06:
         return _request(rng)
+    if rng.random() < 0.35:
+        return _gen_following(rng, 22, [22, 24], _rec4)
     count = rng.choice([0, 1, 1, 1, 2, 2, 3, 4])
     clean = rng.random() < 0.7
     data = b"".join(_rec4(rng, clean) for _ in range(count))
@@ -158,6 +202,8 @@ def _rec5(rng, clean=False):
 def gen_at5(rng):
     if rng.random() < 0.06:
         return _request(rng)
+    if rng.random() < 0.35:
+        return _gen_following(rng, 24, [24], _rec5)
     count = rng.choice([0, 1, 1, 1, 2, 2, 3, 4, 5, 6, 7, 8])
     clean = rng.random() < 0.7
     data = b"".join(_rec5(rng, clean) for _ in range(count))
